@@ -34,4 +34,8 @@ def run(task):
     if op == "read_data":
         with open(os.path.join(P.data_dir(), task["name"])) as fh:
             return fh.read()
+    if op == "cli":
+        from impl import c12prog
+
+        return c12prog.run_cli(task["argv"])
     raise ValueError(op)
